@@ -593,9 +593,22 @@ func hostileBodies() []bodyClass {
 		{"big-1.1M-garbage", func(rng *rand.Rand) []byte { return backend.RandBytes(rng, 1100<<10, true) }},
 		{"nameless-and-duplicate-entries", func(*rand.Rand) []byte { return []byte(listingSeeds[len(listingSeeds)-1]) }},
 		{"mutated-listing", func(rng *rand.Rand) []byte { return mutate(rng, []byte(listingSeeds[rng.Intn(8)]), listingSeeds) }},
+		{"field-state-listing-a", fieldStateOllama}, {"field-state-listing-b", fieldStateOllama}, {"field-state-listing-c", fieldStateOllama},
+		{"field-state-listing-d", fieldStateOllama}, {"field-state-listing-e", fieldStateOllama}, {"field-state-listing-f", fieldStateOllama},
 		{"mutated-completion", func(rng *rand.Rand) []byte { return mutate(rng, []byte(completionSeeds[rng.Intn(2)]), completionSeeds) }},
 		{"mutated-sse", func(rng *rand.Rand) []byte { return mutate(rng, []byte(streamSeeds[rng.Intn(2)]), streamSeeds) }},
 	}
+}
+
+// fieldStateOllama: a structure-generated listing in the form the ollama-typed endpoint of
+// part B is parsed with.
+func fieldStateOllama(rng *rand.Rand) []byte {
+	for i := 0; i < 50; i++ {
+		if b := genListing(rng); bytes.HasPrefix(b, []byte(`{"models":[{`)) {
+			return b
+		}
+	}
+	return []byte(`{"models":[{"name":"x","details":{"families":[]}}]}`)
 }
 
 func partB(run *rep.Run, seed int64) {
